@@ -536,6 +536,8 @@ def check_C15(ctx):
                                   "invariants": ["InvC15owned", "InvC15running", "InvC15noOverlap", "InvC15tl", "RunningAction", "CallsReturn (liveness, fair)"],
                                   "states_generated": res["states"], "distinct": res["distinct"], "wall_s": res["wall_s"], "exhaustive": True})
     invs = ["InvC15", "InvC04x", "InvC12"]
+    # wide stages on pools of 1..3 workers: every ordinary system exactly once per dispatch
+    async_stage(ctx, invs, 40 if ctx.quick() else 400, extra=["--nmin", 8, "--nmax", 30, "--nres", 12, "--calls", 8, "--pbatch", 0.0], seed_off=3)
     for (cnt, calls, off) in ([(60, 12, 0)] if ctx.quick() else [(600, 16, 0), (100, 30, 1)]):
         out = ctx.fresh("as", "ndjson")
         st = run_bin(ctx, "exec", ["async", "--seed", ctx.seed * 1000 + off, "--count", cnt, "--calls", calls, "--ppanic", 0.15,
